@@ -330,8 +330,9 @@ def entity_roundtrip(ctx, n):
             T(v='other', w=n)
         with db_session:
             got = sorted(select((t.v, t.w) for t in T if t.v == n or t.w == n))
-            cols = [r[1] for r in db.execute('PRAGMA table_info(%s)' % db.provider.quote_name('T' + n)).fetchall()]
-            tabs = [r[0] for r in db.execute("SELECT name FROM sqlite_master WHERE type = 'table'").fetchall()]
+            con = db.get_connection()   # the raw sqlite3 connection: db.execute would parse `$` in the text as a parameter (C30's subject)
+            cols = [r[1] for r in con.execute('PRAGMA table_info(%s)' % db.provider.quote_name('T' + n)).fetchall()]
+            tabs = [r[0] for r in con.execute("SELECT name FROM sqlite_master WHERE type = 'table'").fetchall()]
         res = (got, cols, 'T' + n in tabs)
     except Exception as e:
         res = 'raised %s: %s' % (type(e).__name__, short(str(e), 80))
@@ -600,8 +601,13 @@ def statements(ctx, strings):
                     if style == 'qmark': got = con.execute(b.sql, args).fetchall()
                     elif style == 'named': got = con.execute(b.sql, args).fetchall()
                     elif style == 'numeric':
-                        sql = ''.join(('?%d' % x.id) if isinstance(x, Param) else str(x) for x in b.result).rstrip('\n')
-                        got = con.execute(sql, args).fetchall()
+                        # PEP 249 reading: `:N` is args[N-1]  (lowered to SQLite named parameters n<N>)
+                        sql = ''.join((':n%d' % x.id) if isinstance(x, Param) else str(x) for x in b.result).rstrip('\n')
+                        got = con.execute(sql, {'n%d' % (i + 1): a for i, a in enumerate(args)}).fetchall()
+                        # cx_Oracle's positional reading: one value per occurrence, left to right
+                        sql2 = ''.join('?' if isinstance(x, Param) else str(x) for x in b.result).rstrip('\n')
+                        got2 = con.execute(sql2, args).fetchall()
+                        if got2 != got: got = ['readings differ', got, got2]
                     elif style == 'format': got = con.execute(b.sql % tuple(sql_lit(a) for a in args)).fetchall()
                     else: got = con.execute(b.sql % {k: sql_lit(v) for k, v in args.items()}).fetchall()
                 got = list(got[0]) if len(got) == 1 else got
